@@ -1,15 +1,16 @@
-(** C01, known finding F-C01a: for an LMI that is NOT symmetric as written the multipliers PEPit
-    exposes do not certify the bound.  The entry multipliers u_kij of the equalities M_k[i][j] == e_kij
-    are discarded (PSDMatrix.entries_dual_variable_value is never assigned); when e_kij and e_kji
-    differ, substituting M_k := E_k in the constant Lagrangian is illegal and the terms
-    u_kij (e_kij - e_kji) are lost.
+(** C01, regression for the repaired finding F-C01a (PEPit commit bd99691).  BEFORE the repair check_feasibility
+    combined the expressions of an LMI with eval_dual(), the dual matrix S of [M >> 0], and the multipliers
+    u_kij of the entry equalities M_k[i][j] == e_kij were discarded; for an LMI that is NOT symmetric as written
+    that combination does not certify the bound.  [Model.Cert.old_combination] keeps that formula; the theorems
+    below show it refuted on the model of the original trigger, and show that the CURRENT formula (entry
+    multipliers, [Model.Cert.combination]) returns the true dual value on the same instance - which therefore
+    also serves as the asymmetric non-vacuity example of the strengthened identity theorem.
 
-    Witness (the model of the replay on the real code, reduced to its essentials): leaf point p,
-    leaf expressions t, s, objective o;   o <= t,   <p,p> <= 81/100,   [[<p,p>, t], [s + 1, 1]] >> 0.
-    The emitted problem forces t = M01 = M10 = s + 1 and <p,p> * 1 >= t^2, so its optimal value is
-    9/10.  The duals below satisfy stationarity and are dual feasible; PEPit's reconstruction returns
-    281/400 (and 2/5 for the optimal dual, the number observed on the real code), below the feasible
-    objective value 9/10. *)
+    Witness: leaf point p, leaf expressions t, s, objective o;   o <= t,   <p,p> <= 81/100,
+    [[<p,p>, t], [s + 1, 1]] >> 0.  The emitted problem forces t = M01 = M10 = s + 1 and <p,p> * 1 >= t^2, so its
+    optimal value is 9/10.  The duals below satisfy stationarity and are dual feasible.  Old formula: 281/400
+    (and 2/5 for the optimal dual, the number observed on the real code before the repair), below the feasible
+    objective value 9/10.  Current formula: 481/400, resp. 9/10 (observed after the repair). *)
 From Coq Require Import List QArith Reals Qreals Lra Lia Arith Bool Psatz.
 From PV Require Import Model.Dict Model.Terms Model.Sent Model.Cvxpy Model.Cert
      Spec.GramSem Spec.KKT.
@@ -97,53 +98,75 @@ Proof.
   - cbn [w_obj evalGF evalKGF]. unfold w_F. q2r. lra.
 Qed.
 
-(** dual feasibility of the exposed multipliers for a = 1/4, u11 = 1:  S = v v^T with v = (1/2, -1) *)
+Definition w_ids : list nat := [0; 1; 2]%nat.
+
+Lemma w_ids_ok : NoDup w_ids /\ length w_ids = length w_sent.
+Proof. split; [|reflexivity]. unfold w_ids. repeat (apply NoDup_cons; [cbn; intuition lia|]). apply NoDup_nil. Qed.
+
+(** dual feasibility of what the objects show for a = 1/4, u11 = 1:  S = v v^T with v = (1/2, -1), and S is the
+    symmetric part of u = [[1/4, -1], [0, 1]] *)
 Lemma w_dual_feasible :
-  let '(a, res) := exposed w_sent (w_duals (1 # 4) 1) in
+  let '(a, res) := exposed w_sent w_ids (w_duals (1 # 4) 1) in
   dual_feasible a /\ rank1sum (res_matrix res) 1.
 Proof.
-  cbn. split; [split; [q2r; lra|split; [q2r; lra|split; [|exact I]]]|].
+  cbn. split; [split; [q2r; lra|split; [q2r; lra|split; [|split; [|split; [|exact I]]]]]|].
   - split; [split; [reflexivity|repeat constructor]|].
     exists [fun k => match k with 0%nat => 1 / 2 | _ => -1 end].
     intros i j Hi Hj. unfold matR, matq, nrows, w_lmi in *. cbn [length] in *.
     destruct i as [|[|i]], j as [|[|j]]; try lia; cbn [nth rank1_at]; q2r; lra.
+  - split; [reflexivity|repeat constructor].
+  - intros i j Hi Hj. unfold matR, matq, nrows, w_lmi in *. cbn [length] in *.
+    destruct i as [|[|i]], j as [|[|j]]; try lia; cbn [nth]; q2r; lra.
   - split; [split; [reflexivity|repeat constructor]|].
     exists []. intros i j Hi Hj. destruct i, j; try lia. unfold matR, matq. cbn. q2r. lra.
 Qed.
 
-(** what PEPit returns *)
-Lemma w_reconstruct_feasible_dual :
-  snd (certificate w_obj w_sent (w_duals (1 # 4) 1)) == 281 # 400.
+Definition old_value (temp : list dval) : Q :=
+  let '(a, res) := exposed w_sent w_ids temp in old_reconstruct w_obj (res_matrix res) a.
+Definition new_value (temp : list dval) : Q := snd (certificate w_obj w_sent w_ids temp).
+
+(** what PEPit returned before the repair, and what it returns now *)
+Lemma w_old_feasible_dual : old_value (w_duals (1 # 4) 1) == 281 # 400.
+Proof. vm_compute. reflexivity. Qed.
+Lemma w_old_optimal_dual : old_value (w_duals (5 # 9) (9 # 20)) == 2 # 5.
+Proof. vm_compute. reflexivity. Qed.
+Lemma w_new_feasible_dual : new_value (w_duals (1 # 4) 1) == 481 # 400.
+Proof. vm_compute. reflexivity. Qed.
+Lemma w_new_optimal_dual : new_value (w_duals (5 # 9) (9 # 20)) == 9 # 10.
 Proof. vm_compute. reflexivity. Qed.
 
-Lemma w_reconstruct_optimal_dual :
-  snd (certificate w_obj w_sent (w_duals (5 # 9) (9 # 20))) == 2 # 5.
-Proof. vm_compute. reflexivity. Qed.
-
-(** * C01_identity_asym_refuted *)
-Theorem identity_asym_refuted :
-  exists (np : nat) (obj : edict) (tracked : sent) (temp : list dval) (tau : R)
+(** * C01_old_formula_refuted (regression: the pre-fix S-based combination) *)
+Theorem old_formula_refuted :
+  exists (np : nat) (obj : edict) (tracked : sent) (ids : list nat) (temp : list dval) (tau : R)
          (G : nat -> nat -> R) (F : nat -> R),
-    wf_edict obj /\ wf_sent tracked
+    wf_edict obj /\ wf_sent tracked /\ NoDup ids /\ length ids = length tracked
     /\ all_lmis_symmetric tracked = false
     /\ kkt_dual obj (emit tracked) temp tau
-    /\ (let '(a, res) := exposed tracked temp in dual_feasible a /\ rank1sum (res_matrix res) np)
+    /\ (let '(a, res) := exposed tracked ids temp in dual_feasible a /\ rank1sum (res_matrix res) np)
     /\ feasible np tracked G F
-    /\ Q2R (snd (certificate obj tracked temp)) < evalGF G F obj.
+    /\ (let '(a, res) := exposed tracked ids temp in
+        Q2R (old_reconstruct obj (res_matrix res) a) < evalGF G F obj
+        /\ Q2R (reconstruct obj (res_matrix res) a) = tau).
 Proof.
-  exists 1%nat, w_obj, w_sent, (w_duals (1 # 4) 1), (Q2R (1 # 4) * (81 / 100) + Q2R 1), w_G, w_F.
-  split; [apply w_wf|]. split; [apply w_wf|]. split; [apply w_not_symmetric|].
+  exists 1%nat, w_obj, w_sent, w_ids, (w_duals (1 # 4) 1), (Q2R (1 # 4) * (81 / 100) + Q2R 1), w_G, w_F.
+  split; [apply w_wf|]. split; [apply w_wf|]. split; [apply w_ids_ok|]. split; [apply w_ids_ok|].
+  split; [apply w_not_symmetric|].
   split; [apply w_kkt|]. split; [apply w_dual_feasible|]. split; [apply w_feasible|].
-  rewrite (proj2 w_feasible). rewrite (Qeq_eqR _ _ w_reconstruct_feasible_dual). q2r. lra.
+  pose proof w_old_feasible_dual as Ho. pose proof w_new_feasible_dual as Hn.
+  unfold old_value, new_value, certificate in Ho, Hn.
+  destruct (exposed w_sent w_ids (w_duals (1 # 4) 1)) as [a res]. cbn [snd] in Hn.
+  rewrite (proj2 w_feasible), (Qeq_eqR _ _ Ho), (Qeq_eqR _ _ Hn). split; q2r; lra.
 Qed.
 
-(** the number observed on the real code: with the optimal dual the reconstruction returns 2/5 while
-    the true dual value (the constant of the Lagrangian) and the primal optimum are 9/10 *)
+(** the numbers observed on the real code: with the optimal dual the old formula returned 2/5; the current one
+    returns 9/10, the constant of the Lagrangian and the primal optimum *)
 Theorem asym_observed_value :
   kkt_dual w_obj (emit w_sent) (w_duals (5 # 9) (9 # 20)) (9 / 10)
-  /\ Q2R (snd (certificate w_obj w_sent (w_duals (5 # 9) (9 # 20)))) = 2 / 5.
+  /\ Q2R (old_value (w_duals (5 # 9) (9 # 20))) = 2 / 5
+  /\ Q2R (new_value (w_duals (5 # 9) (9 # 20))) = 9 / 10.
 Proof.
-  split.
+  split; [|split].
   - replace (9 / 10) with (Q2R (5 # 9) * (81 / 100) + Q2R (9 # 20)) by (q2r; lra). apply w_kkt.
-  - rewrite (Qeq_eqR _ _ w_reconstruct_optimal_dual). q2r. lra.
+  - rewrite (Qeq_eqR _ _ w_old_optimal_dual). q2r. lra.
+  - rewrite (Qeq_eqR _ _ w_new_optimal_dual). q2r. lra.
 Qed.
